@@ -6,6 +6,8 @@ from .common import setup, run_kernels
 
 def run(chk):
     prog, base = setup(chk)
+    from .common import platform_independence
+    platform_independence(chk, prog)
     from .common import api_surface, ELEMENT_API
     api_surface(chk, prog, 'Element', ELEMENT_API, 'this check or is value-only (C09)')
     chk.bounds = ["Bytes/Equal/IsNegative (through reduce): all limb vectors with limbs < 2^52 (the documented bound; a superset of the reachable representations of C09)", "SetBytes: all 2^256 strings; SetWideBytes: all 2^512 strings; every other length (symbolic)",
